@@ -410,7 +410,8 @@ func impliedFacts(fs []EdgeFact, depth int, seen map[*ssa.Phi]bool) []EdgeFact {
 					want = 2
 				}
 			}
-		} else {
+		}
+		if phi == nil {
 			c, taken := f.Cond, f.Taken
 			for {
 				if u, ok := c.(*ssa.UnOp); ok && u.Op == token.NOT {
@@ -455,6 +456,12 @@ func impliedFacts(fs []EdgeFact, depth int, seen map[*ssa.Phi]bool) []EdgeFact {
 		}
 		pred := phi.Block().Preds[consistent[0]]
 		var more []EdgeFact
+		// the phi has the value of that edge: for `a && b` (phi [false, b]) known true, b is true
+		if ev := phi.Edges[consistent[0]]; basicKind(ev.Type()) == types.Bool {
+			if _, isConst := ev.(*ssa.Const); !isConst {
+				more = append(more, EdgeFact{Cond: ev, Taken: want == 2})
+			}
+		}
 		more = append(more, edgeFactOf(pred, phi.Block())...)
 		more = append(more, directFacts(pred)...)
 		out = append(out, more...)
